@@ -77,6 +77,7 @@ func gen(a Args, out *Out) {
 		{6, connsim.FreePartialFrameClose},
 		{2, connsim.FreePeerPause},
 		{2, connsim.FreeConsumerPause},
+		{2, connsim.FreeSendDuringConsumerStall},
 		{1, connsim.FreePeerPauseDefault},
 	}
 	var jobs []job
